@@ -6,11 +6,13 @@ and the docstring facts collected in `ref/procedural_ref.py` (topology of the na
 geometry, switches)."""
 import math
 import random
+import signal
+import time
 
 import numpy as np
 
 from .. import build
-from ..ctx import stable_hash
+from ..ctx import stable_hash, CaseTimeout
 from ..ref import topo
 from ..ref import procedural_ref as R
 from ..zoo import surfaces
@@ -18,10 +20,11 @@ from ..zoo import surfaces
 ID = "C14"
 RULE = ("one generator call per case; every public generator of mouette.procedural x integer resolutions from the minimum admissible "
         "(ring N>=3 documented; >=3 segments around an axis, >=2 latitudes, >=2 grid lines, >=4 Fibonacci points where the docstring is silent) "
-        "up to 40, unequal pairs in both orders, radii 1e-3..1e3, random centres / end points / axes (incl. coordinate axes and near-z), "
-        "every boolean switch combination, arguments passed positionally / by keyword / mixed / defaults omitted; dual_mesh on certified closed "
-        "manifolds of the surface zoo; non-trivial = unequal resolutions or at least one non-default switch/parameter; "
-        "distinct = distinct (generator, parameters) hash")
+        "up to 40 (thorough: all pairs), unequal pairs in both orders, radii 1e-3..1e3 (floats, Python ints, numpy scalars), random centres / "
+        "end points / axes (incl. coordinate axes and near-z), every boolean switch combination, arguments passed positionally / by keyword / "
+        "mixed / defaults omitted; ring defects incl. 0, 2pi-0.01 and values equal to a bisection midpoint; float64/float32/int arrays for the "
+        "polyline builders; dual_mesh on certified closed manifolds of the surface zoo; documented exceptions (ring N<3, vector_field shapes); "
+        "non-trivial = unequal resolutions or at least one non-default switch/parameter; distinct = distinct (generator, parameters) hash")
 REQUIRED = {"call": 800, "valid": 3000, "shape": 500, "counts": 700, "geometry": 500, "switch": 1000, "apex": 150,
             "dual": 150, "polyline": 100, "volume": 15, "raises": 10}
 CASE_TIMEOUT = {"quick": 120.0, "thorough": 300.0}
@@ -37,6 +40,8 @@ ASSUMPTIONS = [
     "unit_triangle with unequal arguments is judged only as a valid disk inside the unit right triangle with its three corners present",
     "cylindrify_edges accepts either `radius` or `radius * mean edge length` as the cylinders' radius; icosahedron(uv=True) is not judged",
     "config.sort_neighborhoods is left at its default (True) - dual_mesh relies on ordered vertex rings",
+    "dual_mesh: dual vertex i corresponds to face i and dual face i to vertex i of the input (index-aligned, as V'=F and F'=V suggest); "
+    "inputs are closed manifolds whose reference dual is itself a valid closed manifold (vertex degrees >= 3, faces share at most one edge)",
 ]
 
 # signature order of every generator (positional passing follows it) and the defaults (for the 'defaults omitted' style)
@@ -67,6 +72,7 @@ SIG = {
     "cylindrify_edges": (["mesh", "radius", "N"], {"radius": 5e-2, "N": 50}),
     "dual_mesh": (["mesh", "mode"], {"mode": "barycenter"}),
 }
+RING_DEADLINE = 4.0  # seconds; a ring call normally takes 1-5 ms
 POINT_PARAMS = {"P0", "P1", "P2", "P3", "P4", "P5", "P6", "P7", "P8", "center"}
 STYLES = ["pos", "kw", "mix", "dflt"]
 TWO_RES = {"unit_grid": ("nu", "nv"), "unit_triangle": ("nu", "nv"), "torus": ("major_segments", "minor_segments"),
@@ -213,6 +219,9 @@ def cases(seed, tier):
         k = i % 10
         defect = [0.0, 2 * math.pi - 0.01, 1e-4, math.pi / 2, math.pi, 6.0][k] if k < 6 else _r6(rng.uniform(0, 2 * math.pi - 0.01))
         add("ring", {"N": N, "defect": defect, "open": (i // 2) % 2 == 1, "n_cover": 1 if i % 5 else rng.choice([2, 3])})
+    # adversarial: the requested defect is exactly the defect of a point the bisection visits (heights 5, 2.5, 7.5 are its first midpoints)
+    for i, z in enumerate([5.0, 2.5, 7.5] * (1 if quick else 4)):
+        add("ring", {"N": [3, 4, 6, 5, 8, 12, 7, 20, 40, 9, 10, 11][i], "defect": None, "open": i % 2 == 1, "n_cover": 1}, defect_from_height=z)
     for N in ([0, 1, 2, -1] if quick else [0, 1, 2, -1, -5]):
         for op in (False, True):
             add("ring", {"N": N, "defect": 0.5, "open": op, "n_cover": 1}, expect_raise=True)
@@ -238,10 +247,10 @@ def cases(seed, tier):
         loop = i % 2 == 1
         n = rng.randint(3 if loop else 2, 30)
         add("chain_of_vertices", {"n": n, "dim": 3 if i % 4 < 3 else 2, "loop": loop, "scale": _radius(rng),
-                                  "container": ["ndarray", "ndarray", "list"][i % 3]})
+                                  "container": ["ndarray", "f32", "ndarray", "int"][i % 4]})
     for i in range(40 * rep):
         add("vector_field", {"n": rng.randint(1, 25), "dim": [3, 2, 3, 1][i % 4], "length_mult": [1.0, _r6(rng.uniform(-3, 3)), 0.0, 2.5][i % 4]
-                             if i % 7 else 1.0, "scale": _radius(rng), "container": ["ndarray", "list", "int"][i % 3]})
+                             if i % 7 else 1.0, "scale": _radius(rng), "container": ["ndarray", "ndarray", "int"][i % 3]})
     for kind in ("shape_mismatch", "dim4"):
         for _ in range(3):
             add("vector_field", {"n": rng.randint(2, 6), "dim": 3, "length_mult": 1.0, "scale": 1.0, "container": "ndarray"},
@@ -296,10 +305,12 @@ def _materialise(gen, p, desc):
     if gen == "chain_of_vertices":
         A = rng.uniform(-1, 1, size=(p["n"], p["dim"])) * p["scale"]
         aux["A"] = A.copy()
-        args = {"vertices": A if p["container"] == "ndarray" else A.tolist(), "loop": p["loop"]}
-        if p["container"] != "ndarray":
-            args["vertices"] = np.array(A.tolist())  # documented type is ndarray; rebuilt through a list round trip
-        return args, aux
+        if p["container"] == "f32":
+            A = A.astype(np.float32)
+        elif p["container"] == "int":
+            A = rng.integers(-9, 10, size=(p["n"], p["dim"]))
+        aux["A"] = np.array(A, dtype=float)
+        return {"vertices": A, "loop": p["loop"]}, aux
     if gen == "vector_field":
         n, k = p["n"], p["dim"]
         if p["container"] == "int":
@@ -315,8 +326,6 @@ def _materialise(gen, p, desc):
             O = rng.uniform(-1, 1, size=(n, 4))
             W = rng.uniform(-1, 1, size=(n, 4))
         aux["O"], aux["W"] = np.array(O, float), np.array(W, float)
-        if p["container"] == "list":
-            O, W = O.tolist(), W.tolist()
         return {"origins": O, "vectors": W, "length_mult": p["length_mult"]}, aux
     if gen == "spherify_vertices":
         while True:
@@ -400,9 +409,34 @@ class _Stop(Exception):
     pass
 
 
+def _defect_at_height(M, N, z):
+    """The angle defect of the ring whose apex is at height z, evaluated with the library's own angle function so that the value
+    is bit-identical to the one the generator's bisection compares against (input construction only, not an oracle)."""
+    from math import cos, sin, pi
+    A, B = M.Vec(1., 0., 0.), M.Vec(cos(2 * pi / N), sin(2 * pi / N), 0.)
+    return float(2 * pi - N * M.geometry.angle_3pts(A, M.Vec(0., 0., z), B))
+
+
+def _with_deadline(seconds, fn):
+    """Runs fn() under a shorter watchdog than the case timeout; returns (finished, value)."""
+    t0 = time.time()
+    old = signal.setitimer(signal.ITIMER_REAL, seconds)
+    try:
+        return True, fn()
+    except CaseTimeout:
+        return False, None
+    finally:
+        remaining = (old[0] - (time.time() - t0)) if old[0] > 0 else 0.0
+        signal.setitimer(signal.ITIMER_REAL, max(remaining, 1.0) if old[0] > 0 else 0.0)
+
+
 def run_case(desc, ctx):
     import mouette as M
     gen, p, style = desc["gen"], desc["p"], desc["style"]
+    if "defect_from_height" in desc:
+        p = dict(p)
+        p["defect"] = _defect_at_height(M, p["N"], desc["defect_from_height"])
+        ctx.cls("ring_defect:equal_to_a_bisection_midpoint")
     tag = _tag(gen, p)
     fn = getattr(M.procedural, gen)
     args, aux = _materialise(gen, p, desc)
@@ -434,8 +468,16 @@ def run_case(desc, ctx):
                   "%s accepted an input for which its docstring announces an exception" % gen,
                   params={k: v for k, v in p.items()}, kind=str(desc["expect_raise"]))
         return
-    ok, m = ctx.call(gen, fn, *pos, monitor="call", **kw)
-    ctx.obs("call", gen)
+    if gen == "ring":
+        # the generator places the apex by bisection: termination is part of "returns a mesh" (normal cost: a few ms)
+        done, res = _with_deadline(RING_DEADLINE, lambda: ctx.call(gen, fn, *pos, monitor="call", **kw))
+        if not ctx.check(done, "call", gen, "bisection_does_not_terminate", "ring(N=%d, defect=%r) did not return within %g s" % (p["N"], p["defect"], RING_DEADLINE),
+                         N=p["N"], defect=p["defect"], defect_is="defect at apex height %s" % desc.get("defect_from_height", "n/a")):
+            return
+        ok, m = res
+    else:
+        ok, m = ctx.call(gen, fn, *pos, monitor="call", **kw)
+        ctx.obs("call", gen)
     try:
         _judge(ctx, M, gen, p, tag, m, aux, desc)
     except _Stop:
@@ -457,11 +499,6 @@ def _sample(ctx, desc, m):
 
 
 # ============================================================================= judging
-def _fail(ctx, monitor, gen, mech, what, **w):
-    ctx.check(False, monitor, gen, mech, what, **w)
-    raise _Stop()
-
-
 def _read(ctx, gen, m, want_faces=True):
     ok, V = ctx.call(gen + ":read_vertices", build.vertices_array, m, monitor="call")
     F = []
@@ -705,7 +742,7 @@ def _geo_sphere_uv(ctx, M, gen, p, tag, m, V, F, a):
     if not big:
         ctx.check(nl == p["n_long"], "counts", gen, "wrong_number_of_longitudes", "sphere_uv: %d different longitudes, n_long=%d" % (nl, p["n_long"]))
         # "n_lat different latitudes for points": counted with or without the poles
-        nz = len(set(np.round(W[:, 2], 6).tolist()))
+        nz = R.n_clusters(W[:, 2], 1e-7)
         ctx.check(nz in (p["n_lat"], p["n_lat"] + 1, p["n_lat"] + 2), "counts", gen, "wrong_number_of_latitudes",
                   "sphere_uv: %d different latitudes (poles included), n_lat=%d" % (nz, p["n_lat"]))
 
@@ -788,7 +825,7 @@ def _geo_ring(ctx, M, gen, p, tag, m, V, F, a):
 
 def _geo_flat_ring(ctx, M, gen, p, tag, m, V, F, a):
     _arity(ctx, gen, tag, F, 3, "faces_not_triangles")
-    ctx.check(bool(np.all(V[:, 2] == 0.0)), "geometry", gen, "not_flat", "flat_ring: a vertex has z != 0")
+    ctx.check(bool(np.all(np.abs(V[:, 2]) <= 1e-12)), "geometry", gen, "not_flat", "flat_ring: a vertex has z != 0")
     if p["n_cover"] == 1:
         _apex_defect(ctx, gen, tag, p, V, F, 1)
 
@@ -836,28 +873,29 @@ def _uvs(ctx, gen, tag, m, V, p):
 
 def _geo_unit_grid(ctx, M, gen, p, tag, m, V, F, a):
     nu, nv = p["nu"], p["nv"]
-    inside = bool(np.all(V[:, :2] >= 0.0) and np.all(V[:, :2] <= 1.0) and np.all(V[:, 2] == 0.0))
+    tol = 1e-12
+    inside = bool(np.all(V[:, :2] >= -tol) and np.all(V[:, :2] <= 1.0 + tol) and np.all(np.abs(V[:, 2]) <= tol))
     ctx.check(inside, "geometry", gen, "vertex_outside_unit_square" + tag, "unit_grid: a vertex is outside [0,1]^2 x {0}")
-    have = {(float(v[0]), float(v[1])) for v in V}
-    ctx.check({(0., 0.), (1., 0.), (0., 1.), (1., 1.)} <= have, "geometry", gen, "corner_missing" + tag, "unit_grid: a corner of the unit square is no vertex")
-    xs = {round(float(x), 12) for x in V[:, 0]}
-    ys = {round(float(y), 12) for y in V[:, 1]}
-    ctx.check(len(xs) == nu and len(ys) == nv, "geometry", gen, "subdivisions_on_wrong_axis" + tag,
-              "unit_grid(nu=%d, nv=%d): %d distinct abscissae (horizontal axis) and %d distinct ordinates" % (nu, nv, len(xs), len(ys)))
-    lat = {(round(i / (nu - 1), 12), round(j / (nv - 1), 12)) for i in range(nu) for j in range(nv)}
-    got = {(round(float(v[0]), 12), round(float(v[1]), 12)) for v in V}
-    ctx.check(got == lat, "geometry", gen, "not_the_regular_lattice" + tag, "unit_grid: vertices are not the regular nu x nv lattice of the unit square")
+    ctx.check(all(R.has_point(V, c, tol) for c in ((0, 0, 0), (1, 0, 0), (0, 1, 0), (1, 1, 0))), "geometry", gen, "corner_missing" + tag,
+              "unit_grid: a corner of the unit square is no vertex")
+    nx, ny = R.n_clusters(V[:, 0], 1e-9), R.n_clusters(V[:, 1], 1e-9)
+    ctx.check(nx == nu and ny == nv, "geometry", gen, "subdivisions_on_wrong_axis" + tag,
+              "unit_grid(nu=%d, nv=%d): %d distinct abscissae (horizontal axis) and %d distinct ordinates" % (nu, nv, nx, ny))
+    gx, gy = V[:, 0] * (nu - 1), V[:, 1] * (nv - 1)
+    ix, iy = np.rint(gx), np.rint(gy)
+    on = bool(np.all(np.abs(gx - ix) <= 1e-9) and np.all(np.abs(gy - iy) <= 1e-9))
+    full = {(int(x), int(y)) for x, y in zip(ix, iy)} == {(x, y) for x in range(nu) for y in range(nv)}
+    ctx.check(on and full, "geometry", gen, "not_the_regular_lattice" + tag, "unit_grid: vertices are not the regular nu x nv lattice of the unit square")
     _arity(ctx, gen, tag, F, 3 if p["triangulate"] else 4, "triangulate_true_but_not_triangles" if p["triangulate"] else "triangulate_false_but_not_quads")
     _uvs(ctx, gen, tag, m, V, p)
 
 
 def _geo_unit_triangle(ctx, M, gen, p, tag, m, V, F, a):
     tol = 1e-12
-    inside = bool(np.all(V[:, :2] >= 0.0) and np.all(V[:, 0] + V[:, 1] <= 1.0 + tol) and np.all(V[:, 2] == 0.0))
+    inside = bool(np.all(V[:, :2] >= -tol) and np.all(V[:, 0] + V[:, 1] <= 1.0 + tol) and np.all(np.abs(V[:, 2]) <= tol))
     ctx.check(inside, "geometry", gen, "vertex_outside_unit_triangle" + tag, "unit_triangle: a vertex is outside the triangle (0,0),(1,0),(0,1)",
               params=_brief(p))
-    have = {(float(v[0]), float(v[1])) for v in V}
-    ctx.check({(0., 0.), (1., 0.), (0., 1.)} <= have, "geometry", gen, "corner_missing" + tag,
+    ctx.check(all(R.has_point(V, c, tol) for c in ((0, 0, 0), (1, 0, 0), (0, 1, 0))), "geometry", gen, "corner_missing" + tag,
               "unit_triangle: a corner of the unit right triangle is no vertex", params=_brief(p),
               extent=[float(V[:, 0].max()), float(V[:, 1].max())])
     _arity(ctx, gen, tag, F, 3, "faces_not_triangles")
